@@ -63,7 +63,7 @@ def tree_hash(extra=()):
                     if os.path.islink(p) and not os.path.exists(p):
                         continue
                     h.update(p.encode()); h.update(open(p, 'rb').read())
-    for f in sorted(glob.glob(os.path.join(ROOT, 'harness', '*.[ch]'))) + list(extra):
+    for f in sorted(glob.glob(os.path.join(ROOT, 'harness', '*.[ch]'))) + sorted(glob.glob(os.path.join(ROOT, 'translator', '*.py'))) + list(extra):
         h.update(f.encode()); h.update(open(f, 'rb').read())
     return h.hexdigest()[:20]
 
@@ -101,7 +101,31 @@ def build_impl(log=None):
         try:
             copy_repo(scratch)
             have_cfg = os.path.exists(os.path.join(scratch, 'config.status')) and os.path.exists(os.path.join(scratch, 'Makefile'))
-            if not have_cfg:
+            def mt(f):
+                try: return os.path.getmtime(os.path.join(scratch, f))
+                except OSError: return 0
+            # /repo's in-tree build has no dependency tracking: an edit to anything that is not a
+            # plain .c/.asm/.as translation unit (headers, included .c/.h fragments, tables, configure
+            # inputs) must rebuild every object; configure inputs newer than config.status re-run configure.
+            ref = mt('.libs/libmpir.a')
+            cfg_inputs = ['configure', 'configure.ac', 'acinclude.m4', 'config.guess', 'config.sub', 'configfsf.guess', 'configfsf.sub',
+                          'config.in', 'gmp-h.in', 'Makefile.in', 'mpn/Makefile.in', 'mpz/Makefile.in']
+            stale_cfg = (not have_cfg) or any(mt(f) > mt('config.status') for f in cfg_inputs)
+            full = stale_cfg or ref == 0
+            if not full:
+                for dp, dn, fn in os.walk(scratch):
+                    dn[:] = [x for x in dn if x not in ('.libs', '.deps', 'tests', 'doc', 'tune', 'autom4te.cache')]
+                    for f in fn:
+                        if f.endswith(('.h', '.in', '.m4', '.inc', '.am')) or (f.endswith('.c') and not os.path.exists(os.path.join(dp, f[:-2] + '.lo')) and os.path.basename(dp) not in ('generic', 'x86_64')):
+                            fp = os.path.join(dp, f)
+                            if not os.path.islink(fp) and os.path.getmtime(fp) > ref and f not in ('config.h', 'mpir.h', 'gmp.h', 'mp_bases.h', 'fac_ui.h', 'fib_table.h', 'trialdivtab.h'):
+                                full = True
+                                break
+                    if full:
+                        break
+            if full:
+                sh("find . \\( -name '*.o' -o -name '*.lo' -o -name '*.la' \\) -delete", cwd=scratch)
+            if stale_cfg:
                 sh('./configure CFLAGS=-Wno-error', cwd=scratch, timeout=900)
             rc, out = sh('make -j%d SUBDIRS="%s"' % (NCPU, LIB_SUBDIRS), cwd=scratch, timeout=1800, check=False)
             if rc != 0:
@@ -127,6 +151,10 @@ def build_impl(log=None):
                 if os.path.exists(p):
                     shutil.copy(p, os.path.join(d, 'gensrc', os.path.basename(f)))
             srcs = sorted(glob.glob(os.path.join(ROOT, 'harness', 'drv.c')) + glob.glob(os.path.join(ROOT, 'harness', 'ops_*.c')))
+            sys.path.insert(0, os.path.join(ROOT, 'translator'))
+            import gen_protos
+            gen_protos.main(os.path.join(d, 'alias_table.c'))
+            srcs.append(os.path.join(d, 'alias_table.c'))
             wraps = []
             for src in srcs:
                 txt = open(src).read()
@@ -175,6 +203,8 @@ def build_model(targets=None):
                 if os.path.getmtime(f) > mt:
                     need = True
         if need:
+            apis = ' '.join('theories/' + os.path.basename(f)[:-2] + '.vo' for f in sorted(glob.glob(os.path.join(COQ, 'theories', 'Api*.v'))))
+            sh('timeout 3000 make -j%d COQC="timeout 900 coqc" %s' % (NCPU, apis), cwd=COQ)
             sh([sys.executable, os.path.join(ROOT, 'lib', 'genextract.py')])
             o = os.path.join(COQ, 'extract', 'out')
             sh('coqc -Q ../../theories Mpir -Q ../../gen MpirGen ../Extract.v', cwd=o, timeout=900)
